@@ -308,9 +308,54 @@ func runC20(c *Ctx) {
 				multi := f.Params[2]
 				// after the match append, on the !multi edge, return
 				good := false
+				// the match region: what the guards of the match append establish (the code equality edge)
+				matchGuards := flow.Guards(matchAppend)
+				inMatchRegion := func(in ssa.Instruction) bool {
+					if flow.Dominates(matchAppend, in) {
+						return true
+					}
+					// same guards as the append, except the findMultiple test itself
+					have := flow.Guards(in)
+					for _, mg := range matchGuards {
+						if c0, _ := flow.Cond(mg.If.Cond, true); c0 == ssa.Value(multi) {
+							continue
+						}
+						found := false
+						for _, hg := range have {
+							if hg.If == mg.If && hg.Taken == mg.Taken {
+								found = true
+							}
+						}
+						if !found {
+							return false
+						}
+					}
+					return len(matchGuards) > 0
+				}
+				holdsElem := func(v ssa.Value) bool {
+					v = flow.Peel(v)
+					if v == ssa.Value(matchAppend) {
+						return true
+					}
+					// a one-element literal []*AVP{elem}
+					if sl, ok := v.(*ssa.Slice); ok {
+						if al, ok := sl.X.(*ssa.Alloc); ok {
+							for _, ref := range flow.Referrers(al) {
+								if ia, ok := ref.(*ssa.IndexAddr); ok {
+									for _, r2 := range flow.Referrers(ia) {
+										if st, ok := r2.(*ssa.Store); ok && flow.Peel(st.Val) == flow.Peel(w.elem) {
+											return true
+										}
+									}
+								}
+							}
+						}
+					}
+					return false
+				}
 				for _, b := range f.Blocks {
 					ifi, ok := b.Instrs[len(b.Instrs)-1].(*ssa.If)
-					if !ok || !flow.Dominates(matchAppend, ifi) {
+					if !ok || !inMatchRegion(ifi) {
 						continue
 					}
 					cond, neg := flow.Cond(ifi.Cond, true)
@@ -321,9 +366,9 @@ func runC20(c *Ctx) {
 					if neg {
 						idx = 0
 					}
-					// the !multi successor returns the appended slice
+					// the !multi successor returns the appended slice (or the match alone)
 					sb := b.Succs[idx]
-					if ret, ok := sb.Instrs[len(sb.Instrs)-1].(*ssa.Return); ok && flow.Peel(ret.Results[0]) == ssa.Value(matchAppend) {
+					if ret, ok := sb.Instrs[len(sb.Instrs)-1].(*ssa.Return); ok && holdsElem(ret.Results[0]) {
 						good = true
 					}
 				}
